@@ -446,19 +446,9 @@ func compactEvents(graph *Graph) ([]Event, error) {
 			events = append(events, epicEvent)
 		}
 
-		if task.ClaimedBy != "" {
-			ts := pickTime(lastClaimAt, task.UpdatedAt)
-			claimEvent, err := newEvent("claim", ts, ClaimEvent{
-				ID:      task.ID,
-				AgentID: task.ClaimedBy,
-				TS:      formatTime(ts),
-			})
-			if err != nil {
-				return nil, err
-			}
-			events = append(events, claimEvent)
-		}
-
+		// The state event goes before the claim event: replaying a todo/done/canceled
+		// state clears the claimant, so the other order would drop the claim of a
+		// task whose log holds a claim without its state change (a torn append).
 		if task.State != createdState || (!lastStateAt.IsZero() && lastStateAt.After(createdAt)) {
 			ts := pickTime(lastStateAt, task.UpdatedAt)
 			stateEvent, err := newEvent("state", ts, StateEvent{
@@ -470,6 +460,19 @@ func compactEvents(graph *Graph) ([]Event, error) {
 				return nil, err
 			}
 			events = append(events, stateEvent)
+		}
+
+		if task.ClaimedBy != "" {
+			ts := pickTime(lastClaimAt, task.UpdatedAt)
+			claimEvent, err := newEvent("claim", ts, ClaimEvent{
+				ID:      task.ID,
+				AgentID: task.ClaimedBy,
+				TS:      formatTime(ts),
+			})
+			if err != nil {
+				return nil, err
+			}
+			events = append(events, claimEvent)
 		}
 
 		// Emit result events (in chronological order, oldest first)
